@@ -161,6 +161,18 @@ def register(R, tier="quick"):
                     note="real codec vs a reference analysis; see bounded/formats_bounded.py")
 
 
+    def rwfn(tier_, seed):
+        return run_native("rewrites_bounded.py", [400 if tier_ == "quick" else 8000, seed])
+    R.bounded_check("rewrites-bounded@C15", ["C15"], rwfn,
+                    bound="random query trees of depth <= 2 over the public query types with NON-default parameters (Or minmatch/"
+                          "scale, Not boost, Sequence slop/ordered, DisjunctionMax tiebreak, Phrase slop, span queries, "
+                          "ConstantScoreQuery, ranges, fuzzy, wildcard, Every) x rewrites {accept(identity), apply(identity), "
+                          "replace(absent term), with_boost, copy, deepcopy, pickle, normalize, normalize twice, &, |, -} evaluated "
+                          "on 4 random corpora (4-9 docs, 1-2 segments): same matching documents; quick 400 trees, thorough 8000",
+                    note="on data, complements the SMT shape check of normalize(); constructs of the known findings A1-A3 are not "
+                         "generated here (they are reported by the shape check); see bounded/rewrites_bounded.py")
+
+
     def make_ix(prop):
         def fn(tier_, seed):
             key = ("ix", tier_, seed)
